@@ -12,7 +12,8 @@ SPEC = {
              "acked_intervals as byte set = model SACKed bytes above the ACK, and is_segment_acked = model for EVERY query "
              "(seq in [ISN-3, ISN+3N+3], len 0..3N+4). Besides the 3-byte-segment configurations: one-byte segments (a hole of exactly one byte at "
              "the cumulative ACK) and a WIDE configuration (N = 8 quick / 9 thorough one-byte segments, 4 blocks per ACK allowed, two ISNs) - four "
-             "disjoint out-of-order blocks only exist from N = 8 on, so only there an ACK carries a full 4-block SACK option. distinct_nontrivial = product states with >= 1 SACKed byte."),
+             "disjoint out-of-order blocks only exist from N = 8 on, so only there an ACK carries a full 4-block SACK option. On every delivered packet, for every segment: the same is_segment_acked query asked "
+             "immediately before and after the packet on a copy of the tracker (an answer remembered inside the tracker must not survive the packet). distinct_nontrivial = product states with >= 1 SACKed byte."),
     "claim": ("All reachable product states of receiver x tracker for N segments are visited (finite, fixpoint), every ACK/SACK "
               "choice a conforming receiver could make is a branch, and the full query grid is compared in each state."),
     "note": "Trusted: sanitizers, the reference model (bitmask of SACKed bytes); bound: N segments, ISN set, no ACK reordering (property premise).",
